@@ -212,7 +212,53 @@ def _check_listing(case):
     if st2 == "exc" or r2 != exp2 or st3 == "exc" or r3 != exp:
         return 3, "!", None, [Viol("loadTimeSeriesData-repeated", f"rows {rows} header={hdr}: loading the same unchanged file again gives "
                                                                   f"{r2!r} (undefinedValue={other}, expected {exp2}) and {r3!r} (undefinedValue={uv}, expected {exp})")]
-    return 3, "ok", (hdr, rows, uv), []
+    # what is behind the path: the same listing reached through a symbolic link and through a named pipe (`mkfifo listing; praat ... > listing &`,
+    # process substitution, /dev/stdin): the rows arrive when the file is READ; its directory entry says nothing about them
+    content = "\n".join(lines) + ending
+    link = fn + ".link"
+    if os.path.lexists(link):
+        os.unlink(link)
+    os.symlink(fn, link)
+    st4, r4, _ = call(pi.loadTimeSeriesData, link, uv)
+    os.unlink(link)
+    st5, r5 = _through_pipe(content, lambda p: pi.loadTimeSeriesData(p, uv))
+    for how, stx, rx in (("a symbolic link to the file", st4, r4), ("a named pipe that delivers the same text", st5, r5)):
+        if stx == "exc" or rx != exp:
+            return 5, "!", None, [Viol("loadTimeSeriesData-by-kind-of-file", f"rows {rows} header={hdr} undefinedValue={uv}: read through {how} gives {rx!r}, "
+                                                                             f"from the regular file {exp}")]
+    return 5, "ok", (hdr, rows, uv), []
+
+
+def _through_pipe(content, f):
+    """f(path) with path a FIFO into which a feeder thread writes `content` once; every further open of the pipe by the reader sees an empty
+    stream (so a reader that opens the path more than once terminates instead of blocking)"""
+    import threading
+    p = os.path.join(scratch_dir(), "c20-pipe")
+    if os.path.lexists(p):
+        os.unlink(p)
+    os.mkfifo(p)
+    stop = threading.Event()
+
+    def feed():
+        first = True
+        while not stop.is_set():
+            with open(p, "w", newline="") as fd:      # blocks until somebody opens the pipe for reading
+                if first and not stop.is_set():
+                    fd.write(content)
+                first = False
+    th = threading.Thread(target=feed, daemon=True)
+    th.start()
+    st, r, _ = call(f, p)
+    stop.set()
+    try:                                               # release the feeder if it is waiting for a reader
+        fd = os.open(p, os.O_RDONLY | os.O_NONBLOCK)
+        th.join(5)
+        os.close(fd)
+    except OSError:
+        pass
+    th.join(5)
+    os.unlink(p)
+    return st, r
 
 
 LONG_N = (16, 17, 100, 256, 257, 300, 1000)  # the size axis: lengths around block sizes and CPython's small-int cache
